@@ -39,7 +39,11 @@ def replay_case(model, case):
     return model.step(st, case["op"])
 
 
-def explore(model, ctx, depth, nproc=None, max_states=None, label="A"):
+def explore(model, ctx, depth, nproc=None, max_states=None, label="A", validate_canon=0):
+    """validate_canon=N: for up to N canonical states that were reached a second time through a different
+    history, apply every operation from both representatives and require identical successor keys and
+    oracle verdicts (differential check that `canon` merges only states with the same futures);
+    a mismatch is a HarnessError (my abstraction is wrong), never a property violation."""
     clone = getattr(model, "clone", None)
     observe = getattr(model, "observe", None)
     roots = list(model.roots())
@@ -51,6 +55,8 @@ def explore(model, ctx, depth, nproc=None, max_states=None, label="A"):
         if k not in seen:
             seen.add(k)
             frontier.append((ri, ()))
+    rep = {}  # digest -> (root index, history) of the first representative (only when validating)
+    dup_pairs = []
     transitions = 0
     completed = 0
     fixpoint = False
@@ -93,6 +99,11 @@ def explore(model, ctx, depth, nproc=None, max_states=None, label="A"):
                     if dg not in seen:
                         seen.add(dg)
                         nxt.append((ri, hist + (op,)))
+                        if validate_canon:
+                            rep[dg] = (ri, hist + (op,))
+                    elif validate_canon and len(dup_pairs) < validate_canon * 20 and dg in rep \
+                            and rep[dg] != (ri, hist + (op,)):
+                        dup_pairs.append((rep[dg], (ri, hist + (op,))))
         # canonical order of the next frontier must not depend on seed rotation
         nxt.sort(key=lambda x: (x[0], repr(x[1])))
         frontier = nxt
@@ -103,6 +114,30 @@ def explore(model, ctx, depth, nproc=None, max_states=None, label="A"):
     else:
         if not frontier:
             fixpoint = True
+    validated = 0
+    if validate_canon and dup_pairs:
+        dup_pairs.sort(key=repr)
+        step = max(1, len(dup_pairs) // validate_canon)
+        picked = dup_pairs[::step][:validate_canon]
+
+        def vwork(pair):
+            (r1, h1), (r2, h2) = pair
+            a0 = rebuild(model, roots[r1], h1)
+            for op in model.ops(a0):
+                a = rebuild(model, roots[r1], h1)
+                b = rebuild(model, roots[r2], h2)
+                va, vb = model.step(a, op), model.step(b, op)
+                ka, kb = sorted(k for k, _ in va), sorted(k for k, _ in vb)
+                if ka != kb or (not va and _digest((r1, model.canon(a))) != _digest((r2, model.canon(b)))):
+                    return f"histories {list(h1)} and {list(h2)} share a canonical state but op {op} gives " \
+                           f"{ka}/{model.canon(a)} vs {kb}/{model.canon(b)}"
+            return None
+
+        for msg in common.pmap(vwork, picked, nproc=nproc):
+            if msg:
+                raise common.HarnessError("canonicalisation merges states with different futures: " + msg)
+        validated = len(picked)
+    ctx.stats[f"{label}.canon_pairs_validated"] += validated
     ctx.stats[f"{label}.states"] += len(seen)
     ctx.stats[f"{label}.transitions"] += transitions
     return {
